@@ -93,7 +93,8 @@ class DynRFLinearCtor(RFKickMapLinearCtor):
     def calls(self):
         return {'ctor:vfps::RFKickMap/7': Use(RFKickMapLinearCtor(), inst=lambda cx: [{'x': cx.ghost_of('x'), 'e': cx.ghost_of('e')}]),
                 'ctor:vfps::RFKickMap/9': Use(RFKickMapSinCtor(), inst=lambda cx: [{'x': cx.ghost_of('x'), 'e': cx.ghost_of('e')}]),
-                'vfps::DynamicRFKickMap::__calcModulation': Use(CalcModulationUse(), inst=lambda cx: [{'g': cx.ghost_of('g')}])}
+                'vfps::DynamicRFKickMap::__calcModulation': Use(CalcModulationUse(), inst=lambda cx: [{'g': cx.ghost_of('g')}]),
+                'vfps::RFKickMap::_calcKick': Use(RFCalcKick(), inst=lambda cx: [{'x': cx.ghost_of('x'), 'e': cx.ghost_of('e'), 'k': cx.ghost_of('x')}])}
 
 
 class CalcModulationUse(CalcModulation):
